@@ -73,4 +73,35 @@ theorem C04_cli_count_eq_refs (ix : List Def) (imp : Path → String → Bool) (
         exact hd (by simpa using hc)
       simp [h1, h2]
 
+/-- **C04 (a recorded usage is found from its own position, wherever it stands in the file's list).** The position
+    lookup searches the WHOLE usage list of the file: if some recorded usage covers the cursor (its line, its name under
+    the cursor, its columns), a usage covering the cursor is returned — no assumption that the list is in source order
+    (the analyzer records a function's `usefixtures` names before its `parametrize` names, whatever their lines). -/
+theorem C04_usage_found_anywhere (us : List Usage) (line : Nat) (word : String) (col : Nat) (u : Usage)
+    (hu : u ∈ us) (hl : u.line = line) (hn : u.name = word) (hs : u.startChar ≤ col) (he : col < u.endChar) :
+    ∃ u', usageAt us line word col = some u' ∧ u' ∈ us ∧ u'.line = line ∧ u'.name = word ∧
+      u'.startChar ≤ col ∧ col < u'.endChar := by
+  unfold usageAt
+  have hp : (fun u : Usage => u.line == line && u.name == word && decide (u.startChar ≤ col) && decide (col < u.endChar)) u = true := by
+    simp [hl, hn, hs, he]
+  cases hf : us.find? (fun u => u.line == line && u.name == word && decide (u.startChar ≤ col) && decide (col < u.endChar)) with
+  | none =>
+    have := List.find?_eq_none.mp hf u hu
+    simp [hl, hn, hs, he] at this
+  | some u' =>
+    have hm := List.mem_of_find?_eq_some hf
+    have hq := List.find?_some hf
+    simp only [Bool.and_eq_true, beq_iff_eq, decide_eq_true_eq] at hq
+    exact ⟨u', rfl, hm, hq.1.1.1, hq.1.1.2, hq.1.2, hq.2⟩
+
+/-- … and the answer does not depend on the order of the list when the covering usage is unique -/
+theorem C04_usage_lookup_order_independent (us us' : List Usage) (line : Nat) (word : String) (col : Nat) (u : Usage)
+    (hperm : us.Perm us') (hu : u ∈ us) (hl : u.line = line) (hn : u.name = word) (hs : u.startChar ≤ col) (he : col < u.endChar)
+    (huniq : ∀ v ∈ us, v.line = line → v.name = word → v.startChar ≤ col → col < v.endChar → v = u) :
+    usageAt us line word col = some u ∧ usageAt us' line word col = some u := by
+  obtain ⟨a, ha, ham, h1, h2, h3, h4⟩ := C04_usage_found_anywhere us line word col u hu hl hn hs he
+  obtain ⟨b, hb, hbm, g1, g2, g3, g4⟩ := C04_usage_found_anywhere us' line word col u (hperm.mem_iff.mp hu) hl hn hs he
+  rw [ha, hb, huniq a ham h1 h2 h3 h4, huniq b (hperm.mem_iff.mpr hbm) g1 g2 g3 g4]
+  exact ⟨rfl, rfl⟩
+
 end PLS
